@@ -191,83 +191,109 @@ func extractDispatch(fi *FuncInfo) (map[types.Object]dispAtom, []dispBranch) {
 	info := fi.Pkg.TypesInfo
 	atoms := map[types.Object]dispAtom{}
 	var branches []dispBranch
+	addAtom := func(s *ast.AssignStmt) {
+		if len(s.Lhs) != 2 || len(s.Rhs) != 1 {
+			return
+		}
+		okObj := objOf(info, s.Lhs[1])
+		if okObj == nil {
+			return
+		}
+		rhs := ast.Unparen(s.Rhs[0])
+		kind := ""
+		if ta, isTA := rhs.(*ast.TypeAssertExpr); isTA {
+			switch exprStr(ta.Type) {
+			case "float64":
+				kind = "number"
+			case "string":
+				kind = "string"
+			case "bool":
+				kind = "bool"
+			default:
+				kind = "other"
+			}
+			rhs = ast.Unparen(ta.X)
+		}
+		ix, isIx := rhs.(*ast.IndexExpr)
+		if !isIx {
+			return
+		}
+		tv, has := info.Types[ix.Index]
+		if !has || tv.Value == nil || tv.Value.Kind() != constant.String {
+			return
+		}
+		atoms[okObj] = dispAtom{constant.StringVal(tv.Value), kind}
+	}
+	addBranch := func(cond ast.Expr, pos token.Pos, body *ast.BlockStmt) {
+		usesAtom := false
+		ast.Inspect(cond, func(n ast.Node) bool {
+			if id, isID := n.(*ast.Ident); isID {
+				if _, isAtom := atoms[info.ObjectOf(id)]; isAtom {
+					usesAtom = true
+				}
+			}
+			return true
+		})
+		if !usesAtom {
+			return
+		}
+		b := dispBranch{Cond: cond, Pos: pos}
+		var decl []string
+		ast.Inspect(body, func(n ast.Node) bool {
+			if vs, isVS := n.(*ast.ValueSpec); isVS && vs.Type != nil {
+				if nt := namedOf(info.TypeOf(vs.Type)); nt != nil {
+					decl = append(decl, nt.Obj().Name())
+				}
+			}
+			return true
+		})
+		if len(decl) > 0 {
+			b.Target = decl[0]
+			if len(decl) > 1 {
+				b.Alt = decl[1]
+			}
+		} else {
+			ast.Inspect(body, func(n ast.Node) bool {
+				if rs, isRet := n.(*ast.ReturnStmt); isRet && len(rs.Results) == 1 {
+					if c, isCall := rs.Results[0].(*ast.CallExpr); isCall {
+						b.Target = "custom:" + exprStr(c.Fun)
+					}
+				}
+				return true
+			})
+		}
+		if b.Target != "" {
+			branches = append(branches, b)
+		}
+	}
 	for _, st := range fi.Decl.Body.List {
 		switch s := st.(type) {
 		case *ast.AssignStmt:
-			if len(s.Lhs) != 2 || len(s.Rhs) != 1 {
+			addAtom(s)
+		case *ast.SwitchStmt:
+			// a tagless switch all of whose cases return is the same "first true condition wins" chain
+			if s.Tag != nil || s.Init != nil {
 				continue
 			}
-			okObj := objOf(info, s.Lhs[1])
-			if okObj == nil {
-				continue
-			}
-			rhs := ast.Unparen(s.Rhs[0])
-			kind := ""
-			if ta, isTA := rhs.(*ast.TypeAssertExpr); isTA {
-				switch exprStr(ta.Type) {
-				case "float64":
-					kind = "number"
-				case "string":
-					kind = "string"
-				case "bool":
-					kind = "bool"
-				default:
-					kind = "other"
+			for _, c := range s.Body.List {
+				cc := c.(*ast.CaseClause)
+				if len(cc.List) == 0 {
+					continue
 				}
-				rhs = ast.Unparen(ta.X)
+				cond := cc.List[0]
+				for _, e := range cc.List[1:] {
+					cond = &ast.BinaryExpr{X: cond, Op: token.LOR, Y: e}
+				}
+				addBranch(cond, cc.Pos(), &ast.BlockStmt{List: cc.Body})
 			}
-			ix, isIx := rhs.(*ast.IndexExpr)
-			if !isIx {
-				continue
-			}
-			tv, has := info.Types[ix.Index]
-			if !has || tv.Value == nil || tv.Value.Kind() != constant.String {
-				continue
-			}
-			atoms[okObj] = dispAtom{constant.StringVal(tv.Value), kind}
 		case *ast.IfStmt:
-			usesAtom := false
-			ast.Inspect(s.Cond, func(n ast.Node) bool {
-				if id, isID := n.(*ast.Ident); isID {
-					if _, isAtom := atoms[info.ObjectOf(id)]; isAtom {
-						usesAtom = true
-					}
+			if s.Init != nil {
+				// `if _, has := tmp["k"]; has {`
+				if as, ok := s.Init.(*ast.AssignStmt); ok {
+					addAtom(as)
 				}
-				return true
-			})
-			if !usesAtom {
-				continue
 			}
-			b := dispBranch{Cond: s.Cond, Pos: s.Pos()}
-			// declared result types inside the branch, in order
-			var decl []string
-			ast.Inspect(s.Body, func(n ast.Node) bool {
-				if vs, isVS := n.(*ast.ValueSpec); isVS && vs.Type != nil {
-					if nt := namedOf(info.TypeOf(vs.Type)); nt != nil {
-						decl = append(decl, nt.Obj().Name())
-					}
-				}
-				return true
-			})
-			if len(decl) > 0 {
-				b.Target = decl[0]
-				if len(decl) > 1 {
-					b.Alt = decl[1]
-				}
-			} else {
-				// return <ParserVar>(input)
-				ast.Inspect(s.Body, func(n ast.Node) bool {
-					if rs, isRet := n.(*ast.ReturnStmt); isRet && len(rs.Results) == 1 {
-						if c, isCall := rs.Results[0].(*ast.CallExpr); isCall {
-							b.Target = "custom:" + exprStr(c.Fun)
-						}
-					}
-					return true
-				})
-			}
-			if b.Target != "" {
-				branches = append(branches, b)
-			}
+			addBranch(s.Cond, s.Pos(), s.Body)
 		}
 	}
 	return atoms, branches
